@@ -54,6 +54,11 @@ def Scheme.needsParent : Scheme → Bool
   | .texCoords | .texCoordsDeprecated | .geometricNormal _ => true
   | _ => false
 
+/-- the schemes with an octahedron transform (their corrections are not zig-zag coded) -/
+def Scheme.isOcta : Scheme → Bool
+  | .deltaOcta _ | .geometricNormal _ => true
+  | _ => false
+
 /-- first part of `DecodeIntegerValues`: the prediction method byte, the transform byte and the prediction
     scheme object `CreateIntPredictionScheme` builds from them (with the reason when the combination is outside the
     model, "" otherwise) -/
@@ -236,11 +241,8 @@ def decodeIntegerValuesEb (kind numEntries nc attComponents : Nat) (md : MeshDat
   alloc "integer_decoder.portable_attribute" (4 * numValues)
   require (numEntries > 0)
   let raw ← readCodedValuesEb pre20 numValues nc
-  let octa := match scheme with
-    | .deltaOcta _ | .geometricNormal _ => true
-    | _ => false
   let vals : Array Int :=
-    if octa then (raw.map (toSigned 32)).toArray else (raw.map ofSymbol).toArray
+    if scheme.isOcta then (raw.map (toSigned 32)).toArray else (raw.map ofSymbol).toArray
   let out ← applySchemeEb ver scheme md pos posF nc vals
   pure (out, tr)
 
